@@ -6,3 +6,31 @@ PROPS["C18"]["level_text"] += (" Runtime observation (not a proof): a sample of 
                                "reachable must be among the model's occupied slots and within the specification's buffer - this is what sees "
                                "references kept outside the ring slots (hidden slice tails, scratch slices).")
 PROPS["C18"]["rule"] += "; finalizer families: every 25th finite / 150th valid history (6th / 25th in the thorough tier)"
+
+# round 7: explicit IDs that look like generated ones
+for _p in ("C08", "C09"):
+    PROPS[_p]["rule"] += ("; explicit (manual) IDs are spelled nine ways - opaque names, or decimals that look like generated IDs: counting from 0 / "
+                          "from an offset, decreasing, out of order within blocks, shuffled, with gaps, zero-padded, mixed with names - in the "
+                          "random histories and in the exhaustive ones up to length 3; replays also present never-issued numerals "
+                          "inside the range of the issued ones and right after it; directed sweep: every arrangement of 2-4 distinct numbers "
+                          "out of six put with explicit IDs, then every number of the range presented")
+
+# round 7: long backlogs
+for _p in ("C09", "C18"):
+    PROPS[_p]["rule"] += ("; directed long backlogs: a burst of 300 / 1000 events, a pause longer than the TTL, then one Put whose "
+                          "collection is due (all expired, or all but five) or an explicit GC(), then resumptions and Puts while the ring "
+                          "shrinks; all of them also in the finalizer family")
+
+# round 7: the exported field GCInterval assigned on a replayer in use
+for _p in ("C09", "C18"):
+    PROPS[_p]["level_text"] += (" The histories of the model, of the specification and of the theorems (universally quantified over them) contain, "
+                                "next to Put / Replay / GC, assignments to the exported field GCInterval between two operations (VSetGCI): the "
+                                "interval is part of the state and shouldGC reads the current value at every Put, as in replay.go.")
+    PROPS[_p]["rule"] += ("; operation 'GCInterval := g' (lowered, raised, switched off) in the exhaustive alphabet (up to length 3), in the random histories and in a "
+                          "directed sweep: from every interval to every interval - before the first Put, after two Puts, after a Put-triggered "
+                          "or an explicit collection - then pauses of every relevant length and Puts")
+
+# round 7: accepted and rejected Puts interleaved on one replayer (heap family)
+PROPS["C19"]["rule"] += ("; accepted and rejected Puts through one replayer in every order up to length 5 (a message without ID, a clone with an "
+                         "explicit ID, the copy the last accepted Put returned), all four replayers; the random sequences follow which members "
+                         "carry an ID, publish any member (earlier publications included) and contain bursts of 2-4 Puts through one replayer")
